@@ -61,7 +61,7 @@ INVARIANTS
             gen_behaviours(run, o, num, run.seed * 100 + i, 10 if thorough else 8)
         if not behs:
             continue
-        traces = run.execute("table", "internal/pkg/table", "^TestVerifC03$", behs, tag="c03-" + o)
+        traces = run.execute("c03", "internal/pkg/table", "^TestVerifC03$", behs, tag="c03-" + o)
         run.validate("BestPathTrace", "BestPathTrace_%s.cfg" % o, traces, behs,
                      known_cfg="BestPathKF_%s.cfg" % o, group=o,
                      conf_cfg="BestPathConf_%s.cfg" % o)
